@@ -3,6 +3,7 @@ package rules
 import (
 	"fmt"
 	"go/types"
+	"sort"
 	"strings"
 
 	"golang.org/x/tools/go/ssa"
@@ -56,6 +57,38 @@ func init() {
 			}},
 			{Name: "rewrite: follow flag computed by a switch on the entry type", Edits: []Edit{
 				{File: tf, Old: "\t\tisLink := header.Typeflag == tar.TypeSymlink || header.Typeflag == tar.TypeLink\n\t\ttargetPath, err = containedPath(realDest, targetPath, !isLink)\n", New: "\t\tfollow := true\n\t\tswitch header.Typeflag {\n\t\tcase tar.TypeSymlink, tar.TypeLink:\n\t\t\tfollow = false\n\t\t}\n\t\ttargetPath, err = containedPath(realDest, targetPath, follow)\n"},
+			}},
+			// ---- round 2: seeded classes and neighbours
+			{Name: "containment by bare string prefix (sibling dest-old counts as inside dest)", ExpectRule: "C27.R4", ExpectKey: "containedPath", Edits: []Edit{
+				{File: tf, Old: "\troot := strings.TrimSuffix(realDest, string(filepath.Separator))\n\tif realPath != realDest && !strings.HasPrefix(realPath, root+string(filepath.Separator)) {\n", New: "\tif !strings.HasPrefix(realPath, realDest) {\n"},
+			}},
+			{Name: "containment by substring", ExpectRule: "C27.R4", ExpectKey: "strings.Contains", Edits: []Edit{
+				{File: tf, Old: "\tif realPath != realDest && !strings.HasPrefix(realPath, root+string(filepath.Separator)) {\n", New: "\tif realPath != realDest && !strings.Contains(realPath, root+string(filepath.Separator)) {\n"},
+			}},
+			{Name: "containment delegated to a helper that forgets the separator", ExpectRule: "C27.R4", ExpectKey: "insideRoot", Edits: []Edit{
+				{File: tf, Old: "\troot := strings.TrimSuffix(realDest, string(filepath.Separator))\n\tif realPath != realDest && !strings.HasPrefix(realPath, root+string(filepath.Separator)) {\n", New: "\tif !insideRoot(realDest, realPath) {\n"},
+				{File: tf, Old: "// CalculateDirectorySize calculates", New: "func insideRoot(root, p string) bool { return p == root || strings.HasPrefix(p, root) }\n\n// CalculateDirectorySize calculates"},
+			}},
+			{Name: "link entries recognised by the link-name field instead of the type flag", ExpectRule: "C27.R3", ExpectKey: "os.OpenFile", Edits: []Edit{
+				{File: tf, Old: "isLink := header.Typeflag == tar.TypeSymlink || header.Typeflag == tar.TypeLink", New: "isLink := header.Linkname != \"\""},
+			}},
+			{Name: "empty entries treated like links", ExpectRule: "C27.R3", ExpectKey: "os.OpenFile", Edits: []Edit{
+				{File: tf, Old: "isLink := header.Typeflag == tar.TypeSymlink || header.Typeflag == tar.TypeLink", New: "isLink := header.Typeflag == tar.TypeSymlink || header.Typeflag == tar.TypeLink || header.Size == 0"},
+			}},
+			{Name: "follow decision cached from the previous entry", ExpectRule: "C27.R3", ExpectKey: "os.OpenFile", Edits: []Edit{
+				{File: tf, Old: "\ttr := tar.NewReader(r)\n\n\tfor {\n\t\theader, err := tr.Next()\n\t\tif err == io.EOF {\n\t\t\tbreak\n\t\t}\n\t\tif err != nil {\n\t\t\treturn fmt.Errorf(\"failed to read tar header: %w\", err)\n\t\t}\n\n\t\t// Validate and sanitize the path\n\t\ttargetPath, err := sanitizeTarPath(destDir, header.Name)", New: "\ttr := tar.NewReader(r)\n\tprevLink := false\n\n\tfor {\n\t\theader, err := tr.Next()\n\t\tif err == io.EOF {\n\t\t\tbreak\n\t\t}\n\t\tif err != nil {\n\t\t\treturn fmt.Errorf(\"failed to read tar header: %w\", err)\n\t\t}\n\n\t\t// Validate and sanitize the path\n\t\ttargetPath, err := sanitizeTarPath(destDir, header.Name)"},
+				{File: tf, Old: "\t\tisLink := header.Typeflag == tar.TypeSymlink || header.Typeflag == tar.TypeLink\n", New: "\t\tisLink := prevLink\n\t\tprevLink = header.Typeflag == tar.TypeSymlink || header.Typeflag == tar.TypeLink\n"},
+			}},
+			{Name: "rewrite: link types recognised by a small helper", Edits: []Edit{
+				{File: tf, Old: "isLink := header.Typeflag == tar.TypeSymlink || header.Typeflag == tar.TypeLink", New: "isLink := isLinkType(header.Typeflag)"},
+				{File: tf, Old: "// CalculateDirectorySize calculates", New: "func isLinkType(t byte) bool { return t == tar.TypeSymlink || t == tar.TypeLink }\n\n// CalculateDirectorySize calculates"},
+			}},
+			{Name: "rewrite: regular-file case also takes the old-style type flag", Edits: []Edit{
+				{File: tf, Old: "\t\tcase tar.TypeReg:\n\t\t\t// Create parent directories if needed", New: "\t\tcase tar.TypeReg, tar.TypeRegA:\n\t\t\t// Create parent directories if needed"},
+			}},
+			{Name: "rewrite: separator-terminated root built once by a helper", Edits: []Edit{
+				{File: tf, Old: "\troot := strings.TrimSuffix(realDest, string(filepath.Separator))\n\tif realPath != realDest && !strings.HasPrefix(realPath, root+string(filepath.Separator)) {\n", New: "\tif realPath != realDest && !strings.HasPrefix(realPath, dirPrefix(realDest)) {\n"},
+				{File: tf, Old: "// CalculateDirectorySize calculates", New: "func dirPrefix(d string) string {\n\treturn strings.TrimSuffix(d, string(filepath.Separator)) + string(filepath.Separator)\n}\n\n// CalculateDirectorySize calculates"},
 			}},
 			{Name: "rewrite: containment test written with filepath.Rel", Edits: []Edit{
 				{File: tf, Old: "\troot := strings.TrimSuffix(realDest, string(filepath.Separator))\n\tif realPath != realDest && !strings.HasPrefix(realPath, root+string(filepath.Separator)) {\n", New: "\trel, rerr := filepath.Rel(realDest, realPath)\n\tif rerr != nil || rel == \"..\" || strings.HasPrefix(rel, \"..\"+string(filepath.Separator)) {\n"},
@@ -146,6 +179,103 @@ func (cx *c27Ctx) isContainmentResolver(fn *ssa.Function) bool {
 	return ok
 }
 
+// checkContainmentPredicate decides R4 for one containment resolver: every
+// strings.HasPrefix/HasSuffix/Contains/EqualFold call in it (and, one level deep, in the
+// repository helpers it calls with the resolved value) that relates a resolver-derived
+// string to a parameter-derived one.
+func (cx *c27Ctx) checkContainmentPredicate(r *kit.Report, fn *ssa.Function) {
+	p := cx.p
+	type site struct {
+		f   *ssa.Function
+		rel g9StringRel
+	}
+	var sites []site
+	for _, rel := range g9StringRels(fn) {
+		sw := (&kit.PathFlow{Prog: p, Within: fn, Barrier: cx.isResolverResult}).Walk(rel.s)
+		pw := (&kit.PathFlow{Prog: p, Within: fn, Barrier: cx.isResolverResult}).Walk(rel.p)
+		if len(sw.Barriers) > 0 && len(pw.Params) > 0 && len(pw.Barriers) == 0 {
+			sites = append(sites, site{fn, rel})
+		}
+	}
+	// helpers receiving the resolved value: comparisons between two different parameters
+	for _, c := range kit.Calls(fn) {
+		h := kit.CalleeOf(c).Static
+		if h == nil || h.Blocks == nil || h == fn || !kit.IsRepoPkg(kit.FuncPkgPath(h)) || cx.isResolverFn(h) {
+			continue
+		}
+		takesResolved := false
+		for _, a := range c.Common().Args {
+			if c26IsStringType(a.Type()) && len((&kit.PathFlow{Prog: p, Within: fn, Barrier: cx.isResolverResult}).Walk(a).Barriers) > 0 {
+				takesResolved = true
+			}
+		}
+		if !takesResolved {
+			continue
+		}
+		for _, rel := range g9StringRels(h) {
+			sp := (&kit.PathFlow{Prog: p, Within: h}).Walk(rel.s).Params
+			pp := (&kit.PathFlow{Prog: p, Within: h}).Walk(rel.p).Params
+			if len(sp) == 0 || len(pp) == 0 {
+				continue
+			}
+			inS := map[*ssa.Parameter]bool{}
+			for _, x := range sp {
+				inS[x] = true
+			}
+			differ := false
+			for _, x := range pp {
+				if !inS[x] {
+					differ = true
+				}
+			}
+			if differ {
+				sites = append(sites, site{h, rel})
+			}
+		}
+	}
+	ord := map[string]int{}
+	for _, st := range sites {
+		k := kit.FuncName(st.f) + " strings." + st.rel.name
+		ord[k]++
+		key := fmt.Sprintf("%s #%d", k, ord[k])
+		pos := p.Pos(st.rel.call.Pos())
+		if st.rel.name != "HasPrefix" {
+			r.Violation("C27.R4", key, pos, "the resolved path is compared with the destination by strings.%s: substring, suffix and case-insensitive matches accept locations outside the destination (<parent>/x/<dest>, <parent>/Dest) - containment needs a separator-terminated prefix test or filepath.Rel", st.rel.name)
+			continue
+		}
+		r.Decide(g9EndsWithSep(st.rel.p, 0), "C27.R4", key, pos,
+			"the prefix operand provably ends with the path separator",
+			"strings.HasPrefix against the destination path without a trailing separator: the sibling <parent>/dest-old has <parent>/dest as a string prefix, so an entry that resolves into it (reached through a planted link) passes the containment test and is written outside the destination")
+	}
+	r.Count("containment_string_comparisons", len(sites))
+}
+
+// consumerSites: the calls in f that hand a value derived from v to a function from which
+// target is reachable (the path leaves f there on its way to the sink).
+func (cx *c27Ctx) consumerSites(f *ssa.Function, v ssa.Value, target *ssa.Function) []ssa.Instruction {
+	var out []ssa.Instruction
+	for _, k := range kit.Calls(f) {
+		t, ok := kit.CallTargets(k)
+		if !ok {
+			continue
+		}
+		reaches := false
+		for _, callee := range t {
+			reaches = reaches || g9Reaches(callee, target, cx.reach)
+		}
+		if !reaches {
+			continue
+		}
+		for _, a := range k.Common().Args {
+			if c26IsStringType(a.Type()) && (&kit.PathFlow{Prog: cx.p, Within: f}).Walk(a).Reached(v) {
+				out = append(out, k)
+				break
+			}
+		}
+	}
+	return out
+}
+
 func (cx *c27Ctx) isBarrier(v ssa.Value) bool {
 	c := c26ResultCall(v)
 	if c == nil {
@@ -158,6 +288,7 @@ func (cx *c27Ctx) isBarrier(v ssa.Value) bool {
 func runC27(p *kit.Program, r *kit.Report) {
 	r.Rule("C27.R1", "every mutating file-system call whose path is built from a tar header's Name/Linkname receives the result of a containment resolver (paths derive from filepath.EvalSymlinks; a comparison of the resolved value with the root precedes every return)")
 	r.Rule("C27.R3", "a mutating call that follows a link in the last path component (OpenFile, MkdirAll, WriteFile, Chmod, ...) receives a fully resolved contained path; a contained path whose last component was kept as named reaches only calls that act on that name itself (Remove, Symlink/Link new name, Rename, Mkdir) or has that component stripped (filepath.Dir) first")
+	r.Rule("C27.R4", "the containment comparison is component-wise: a strings.HasPrefix between the resolved path and the root uses a prefix that provably ends with the path separator (or the test is made with filepath.Rel / equality); substring, suffix and case-insensitive comparisons are not containment tests")
 	r.Rule("C27.R2", "link targets: the source of a hard link passes the same barrier, and the text of a symbolic link taken from the archive is passed through a containment resolver whose error is checked before os.Symlink")
 
 	cx := &c27Ctx{c26Ctx: newC26Ctx(p), contained: map[*ssa.Function]int{}, notes: map[*ssa.Function]string{}}
@@ -203,21 +334,34 @@ func runC27(p *kit.Program, r *kit.Report) {
 				continue
 			}
 			var partial []ssa.Value // containment results whose last component was left unresolved
-			env := c26EnvAt(s.call)
+			sinkEnvs := c26EnvsAt(s.call)
 			q := &kit.PathFlow{Prog: p, FollowBodies: true, FollowParams: true, Source: cx.isTaintLoad, Barrier: cx.isBarrier,
 				Mark: c26StripsLast,
 				OnBarrier: func(v ssa.Value, stripped bool, argOf func(*ssa.Parameter) ssa.Value) {
 					if stripped {
 						return
 					}
-					evalArg := func(a ssa.Value) (bool, bool) {
-						if in, ok := v.(ssa.Instruction); ok && in.Parent() == s.fn {
-							return c26EvalBool(a, env, argOf, 0) // same function as the sink: its guards apply
+					// the entry-type conditions that hold where the contained path is consumed
+					// in the function that produced it: at the sink itself, or at the call
+					// through which the path travels to the sink's function
+					envs := []c26Env{{}}
+					if in, ok := v.(ssa.Instruction); ok {
+						if in.Parent() == s.fn {
+							envs = sinkEnvs
+						} else if sites := cx.consumerSites(in.Parent(), v, s.fn); len(sites) > 0 {
+							envs = nil
+							for _, k := range sites {
+								envs = append(envs, c26EnvsAt(k)...)
+							}
 						}
-						return c26EvalBool(a, nil, argOf, 0)
 					}
-					if cx.barrierParentOnly(v, evalArg) {
-						partial = append(partial, v)
+					for _, env := range envs {
+						env := env
+						evalArg := func(a ssa.Value) (bool, bool) { return c26EvalBool(a, env, argOf, 0) }
+						if cx.barrierParentOnly(v, evalArg) {
+							partial = append(partial, v)
+							break
+						}
 					}
 				}}
 			res := q.Walk(args[ai])
@@ -250,7 +394,7 @@ func runC27(p *kit.Program, r *kit.Report) {
 					nFollow++
 					r.Decide(len(partial) == 0, "C27.R3", s.key(ai), pos,
 						"the call follows a link in the last component and receives a fully resolved contained path",
-						fmt.Sprintf("%s follows a symbolic link in the last path component, but the contained path it receives (from %s) had only its directory part resolved: an earlier entry can plant a link under that name and the call then writes outside the destination", s.name, c26Where(p, partial)))
+						fmt.Sprintf("%s follows a symbolic link in the last path component, but the contained path it receives (from %s) is not provably fully resolved under the entry-type conditions that select this call (the follow flag is false, or is not a function of the same type field): an earlier entry can plant a link under that name and the call then writes outside the destination", s.name, c26Where(p, partial)))
 				}
 			}
 		}
@@ -258,6 +402,17 @@ func runC27(p *kit.Program, r *kit.Report) {
 		if strings.Contains(s.name, "os.Symlink") && len(args) >= 1 {
 			cx.checkSymlinkText(r, s, linkname)
 		}
+	}
+	// R4: the comparisons inside the containment resolvers that were used as barriers
+	var used []*ssa.Function
+	for fn, st := range cx.contained {
+		if st == 1 {
+			used = append(used, fn)
+		}
+	}
+	sort.Slice(used, func(i, j int) bool { return used[i].Pos() < used[j].Pos() })
+	for _, fn := range used {
+		cx.checkContainmentPredicate(r, fn)
 	}
 	r.Count("archive_paths_reaching_sinks_contained", nBar)
 	r.Count("link_following_sinks_contained", nFollow)
